@@ -76,6 +76,12 @@ def run(tier, replay=None):
         lint_only.add(len(hc))
         hc.append({"mode": "observe", "files": {"main.s": head2 + '.include "fns.s"\n', "fns.s": tail2}, "base": "main.s"})
         meta.append({"spans": [], "gfile": 1, "free": True})
+    # a literal that is still open where the file ends (no final newline): the error may not reach past the last character
+    for t in ('main:\n    nop\n.asciz "abc', "main:\n    nop\n    li a0, 'a", "main:\n    nop\n    li a0, '", 'main:\n    nop\n.asciz "'):
+        hc.append({"mode": "observe", "files": {"main.s": t}, "base": "main.s"})
+        meta.append({"spans": [], "gfile": 1, "free": True})
+        hc.append({"mode": "observe", "files": {"main.s": 'main:\n.include "inc.s"\n', "inc.s": t}, "base": "main.s"})
+        meta.append({"spans": [], "gfile": 1, "free": True})
     # diagnostics located at a function's entry whose label and first instruction are in different files
     for files in corpus.ENTRY_SPLIT_FILES:
         hc.append({"mode": "observe", "files": dict(files), "base": "main.s"})
